@@ -48,6 +48,7 @@ fn cc_build(path: &[(autosar_data::ElementName, autosar_data_specification::Elem
                 None => {}
             }
         }
+        if rng.below(3) == 0 { e.set_comment(Some(format!("comment {}", rng.below(100)))); }
         if e.element_name() == ElementName::Autosar { continue; }
         for (an, aspec, _) in et.attribute_spec_iter().take(3) {
             if let CharacterDataSpec::String { .. } = aspec { let _ = e.set_attribute(an, CharacterData::String("a".to_string())); }
